@@ -5,10 +5,11 @@ scale+=[{"set":"b%d"%b,"file":"wsync/algo.go","ident":"MaxDataOp","value":"8"} f
 def sizes(B): return sorted(set([0,1,B-1,B,B+1,2*B-1,2*B,2*B+1,3*B]))
 Q=["quick","thorough"];T=["thorough"]
 H=[{"name":"H_witness","tiers":Q,"expect":"violation","bounds":"vacuity witness"}]
-H.append({"name":"H_sign","tiers":Q,"scale":"b4","bounds":"B=4; one file of size in {0,1,B-1,B,B+1,2B-1,2B,2B+1,3B} + empty dir + symlink; full reads","param_sets":[{"n0":a,"slicing":0} for a in sizes(4)]})
-H.append({"name":"H_sign","tiers":Q,"scale":"b2","bounds":"B=2; two files, sizes in {0,1,2,3,4,5}; full reads","param_sets":[{"n0":a,"n1":b,"slicing":0} for a in (0,1,2,3,5) for b in (0,2,3)]})
-H.append({"name":"H_sign","tiers":Q,"scale":"b2","bounds":"B=2; one file 0..5; every short-read slicing of the source pool, for each producer","param_sets":[{"n0":a,"slicing":s} for a in (0,1,2,3,4,5) for s in (1,2)]})
+H.append({"name":"H_sign","tiers":Q,"scale":"b4","bounds":"B=4; one file of size in {0,1,B-1,B,B+1,2B-1,2B,2B+1} + empty dir + symlink; full reads","param_sets":[{"n0":a,"slicing":0} for a in sizes(4) if a<=9]})
+H.append({"name":"H_sign","tiers":Q,"scale":"b2","bounds":"B=2; two files, sizes in {0,2,3,5} x {0,3}; full reads","param_sets":[{"n0":a,"n1":b,"slicing":0} for a in (0,2,3,5) for b in (0,3)]})
+H.append({"name":"H_sign","tiers":Q,"scale":"b2","bounds":"B=2; one file in {0,1,3,4}; every short-read slicing of the source pool, for each producer","param_sets":[{"n0":a,"slicing":s} for a in (0,1,3,4) for s in (1,2)]})
 H.append({"name":"H_sign","tiers":T,"scale":"b3","bounds":"B=3; three files with sizes in {0,1,B-1,B,B+1,2B+1}","max_seconds":900,"param_sets":[{"n0":a,"n1":b,"n2":c,"slicing":0} for a in (0,2,3,4,7) for b in (0,1,3,7) for c in (0,4)]})
+H.append({"name":"H_sign","tiers":T,"scale":"b4","bounds":"B=4; one file of 3B bytes","max_seconds":1500,"param_sets":[{"n0":12,"slicing":0}]})
 H.append({"name":"H_sign","tiers":T,"scale":"b4","bounds":"B=4; one file 0..3B with short-read slicing","max_seconds":900,"param_sets":[{"n0":a,"slicing":s} for a in range(0,9) for s in (1,2)]})
 json.dump({"property":"C04","package":"c04","scale":scale,"harnesses":H,
  "stubs":["os -> in-memory file system model","crypto/md5 -> injective model (strong hash = block content + length)","protobuf/wire -> tag-faithful codec model","goroutines (diff/sign/reader per file, validator) under the deterministic run-until-block schedule"],
